@@ -4,6 +4,11 @@ use crate::keys;
 use std::cell::RefCell;
 use std::panic::{self, AssertUnwindSafe};
 
+/// Per-run budget of function calls + loop iterations (see seams::fuel); simulators whose
+/// programs are tiny lower it so that a runaway program (possible under identifier-collision
+/// variants or under a defect in the code under test) costs milliseconds, not seconds.
+pub static FUEL_BUDGET: std::sync::atomic::AtomicU64 = std::sync::atomic::AtomicU64::new(100_000);
+
 thread_local! {
     static PANICS: RefCell<Vec<String>> = const { RefCell::new(Vec::new()) };
 }
@@ -72,7 +77,7 @@ pub fn on_fresh_thread<R: Send + 'static>(
             keys::set_key_seed(key_seed);
             simplesl_verif_seams::sync::reset_lock_ids();
             simplesl_verif_seams::os::uninstall();
-            simplesl_verif_seams::fuel::reset(1500, 100_000);
+            simplesl_verif_seams::fuel::reset(1500, FUEL_BUDGET.load(std::sync::atomic::Ordering::Relaxed));
             let r = guarded(f);
             simplesl_verif_seams::os::uninstall();
             simplesl_verif_seams::sync::sim_abort();
